@@ -154,7 +154,7 @@ theorem linkNameInC_legacy : ∀ (cur : Str) (e : Entity), linkNameInC Cfg.legac
   | _, .routine .. => rfl
   | cur, .bound m => synthName_legacy cur _ m.recv
   | cur, .thunk m => synthName_legacy cur _ m.recv
-  | cur, .wrapper m => synthName_legacy cur _ m.recv
+  | cur, .wrapper m => synthName_legacy (wrapperPkg cur m) _ m.recv
   | cur, .stub e => by
     show "__llgo_stub.".toList ++ linkNameInC Cfg.legacy cur e = "__llgo_stub.".toList ++ linkNameIn cur e
     rw [linkNameInC_legacy cur e]
